@@ -13,9 +13,13 @@ def parse_vcf(text):
             samples = line.split("\t")[9:]
         elif line and not line.startswith("#"):
             f = line.split("\t")
-            alts = [] if f[4] == "." else [ord(x) for x in f[4].split(",")]
-            gts = [(-1 if g == "." else int(g)) for g in f[9:]]
-            recs.append({"chrom": f[0], "pos": int(f[1]), "ref": ord(f[3]), "alts": alts, "gts": gts})
+            try:
+                alts = [] if f[4] == "." else [ord(x) for x in f[4].split(",")]
+                gts = [(-1 if g == "." else int(g)) for g in f[9:]]
+                recs.append({"chrom": f[0], "pos": int(f[1]), "ref": ord(f[3]), "alts": alts, "gts": gts})
+            except (IndexError, ValueError, TypeError):
+                # a line that is not a record is data (e.g. the tail of an older, longer file): a record no model allows
+                recs.append({"chrom": "<malformed line>", "pos": -1, "ref": 63, "alts": [], "gts": []})
     return {"contigs": contigs, "samples": samples, "records": recs}
 
 
@@ -142,8 +146,16 @@ def run_cases(run, tier, seed, tag, with_ref_events=True):
             # CLI, both output formats, a thread count
             th = rng.choice([1, 1, 2, 4])
             flags = (["--ambig-mask"] if am else []) + (["--repeat-mask"] if rm else []) + ["--threads", str(th)]
-            r1, so1, se1 = vlib.ska_cli(["map", ref, sb.path("x")] + flags)
-            r2, so2, se2 = vlib.ska_cli(["map", ref, sb.path("x"), "-f", "vcf"] + flags)
+            if ci % 3 == 0:
+                # through -o, into one file that already holds an earlier (longer or shorter) result
+                mo = os.path.join(sb.dir, "map_result_of_dash_o.txt")
+                r1, so1, se1 = vlib.ska_cli(["map", ref, sb.path("x"), "-o", mo] + flags)
+                so1 = open(mo, "rb").read() if r1 == 0 else so1
+                r2, so2, se2 = vlib.ska_cli(["map", ref, sb.path("x"), "-f", "vcf", "-o", mo] + flags)
+                so2 = open(mo, "rb").read() if r2 == 0 else so2
+            else:
+                r1, so1, se1 = vlib.ska_cli(["map", ref, sb.path("x")] + flags)
+                r2, so2, se2 = vlib.ska_cli(["map", ref, sb.path("x"), "-f", "vcf"] + flags)
             ev = {"ev": "map", "via": "cli", "id": ci, "ctx": ctx, "threads": th}
             if r1 != 0 or r2 != 0:
                 ev["panic"] = (se1 if r1 else se2).decode(errors="replace")[-300:] or "exit"
